@@ -44,11 +44,46 @@ Qed.
 Print Assumptions interrupted_then_completed.
 
 (* Every toIntervalSecond(n) of every MODIFY TTL issued by any run has n >= 60 on sample tables and n >= 86400 on
-   index tables, whatever int32 (or other) value the duration conversion p_conv produced. *)
+   index tables, for every timeout (any integer number of nanoseconds). *)
 Theorem tier_minimum : forall cfg f d t c ts dd b,
   In (CTtl t c ts dd, b) (run_log cfg f d) -> Forall (fun tr => table_min t <= tr_secs tr) ts.
 Proof. intros cfg f d t c ts dd b H. exact (run_tiers_ok cfg f d _ H). Qed.
 Print Assumptions tier_minimum.
+
+(* ... and says exactly what was configured: one tier per configured ttl_policy element, in order, moving to the
+   configured disk after min(max(table minimum, whole seconds of the timeout), 2^31-1) seconds, and the final delete
+   after the configured number of days.  (Needed /repo fix e07ad34: the int32 conversion of a timeout beyond 68 years
+   gave the minimum, see old_conversion_moved_early.) *)
+Theorem tiers_are_the_configured_ones : forall cfg f d t c ts dd b,
+  In (CTtl t c ts dd, b) (run_log cfg f d) ->
+  ts = map (fun p => {| tr_secs := Z.min (Z.max (table_min t) (Z.quot (p_ns p) 1000000000)) 2147483647;
+                        tr_disk := p_disk p |}) (days cfg)
+  /\ dd = drop_days cfg.
+Proof. intros cfg f d t c ts dd b H. exact (run_ttl_exact cfg f d _ H). Qed.
+Print Assumptions tiers_are_the_configured_ones.
+
+(* The tier arithmetic over Z, for every minimum up to 2^31-1 and every timeout: between the minimum and the cap,
+   exact inside that window, never earlier than the configured timeout (up to the cap) and never later than
+   max(minimum, configured), monotone in the timeout; s seconds plus a sub-second rest are s seconds. *)
+Theorem tier_arithmetic : forall minv ns, minv <= 2147483647 ->
+  minv <= tier_secs minv ns <= 2147483647 /\
+  (minv <= Z.quot ns 1000000000 <= 2147483647 -> tier_secs minv ns = Z.quot ns 1000000000) /\
+  Z.min (Z.quot ns 1000000000) 2147483647 <= tier_secs minv ns <= Z.max minv (Z.quot ns 1000000000) /\
+  (forall ns', ns <= ns' -> tier_secs minv ns <= tier_secs minv ns') /\
+  (forall s r, 0 <= s -> 0 <= r < 1000000000 -> ns = s * 1000000000 + r -> Z.quot ns 1000000000 = s).
+Proof.
+  intros minv ns Hm. split; [exact (tier_secs_bounds minv ns Hm)|]. split; [exact (tier_secs_exact minv ns)|].
+  split; [exact (tier_secs_window minv ns Hm)|]. split; [intros ns'; exact (tier_secs_mono minv ns ns' Hm)|].
+  intros s r Hs Hr ->. exact (whole_seconds_of s r Hs Hr).
+Qed.
+Print Assumptions tier_arithmetic.
+
+(* The conversion before the fix (int32 of the float seconds; amd64 semantics for values that do not fit): a
+   timeout of 100 years moved the data after the minimum, one minute resp. one day. *)
+Theorem old_conversion_moved_early : exists ns, 0 < ns < 2 ^ 63 /\ 2147483647 < Z.quot ns 1000000000 /\
+  old_tier_secs 60 ns = 60 /\ old_tier_secs 86400 ns = 86400 /\ tier_secs 60 ns = 2147483647.
+Proof. exact old_conversion_moves_early. Qed.
+Print Assumptions old_conversion_moved_early.
 
 (* Rotate applied to the state produced by an uninterrupted Rotate with the same configuration (from ANY database)
    issues the eight setting reads and nothing else, and changes nothing. *)
